@@ -208,11 +208,17 @@ class LinearMonitor(object):
             self._viol("not-affine", {"op": name, "x": x, "y": y, "expected": float(exp), "reported_domain": list(d), "reported_range": list(r), "clamp": clamp})
         if clamp:
             lo, hi = min(dst), max(dst)
-            if not (lo <= y <= hi):
+            if not (lo - math.ulp(lo) <= y <= hi + math.ulp(hi)):  # one unit in the last place: rounding of a(1-t)+bt
                 self._viol("clamp-escape", {"op": name, "x": x, "y": y, "range": list(dst)})
 
     def uninstall(self):
         self.p.uninstall()
+
+
+class TickBudgetExceeded(Exception):
+    """Raised at the ticks()/nice() boundary when one call took more calendar steps than any tick list the
+    statement allows could need (logical step budget: a wrong tick unit over a long span would otherwise
+    build billions of instants)."""
 
 
 class TimeMonitor(object):
@@ -280,12 +286,46 @@ class TimeMonitor(object):
 
             return on_call
 
+        from vmon.core import BudgetExceeded
+
+        mon._steps = 0
+        mon._depth = 0
+        mon.step_budget = 100000  # <= 2.4*100+1 ticks, each at most a few hundred unit steps apart
+
         def counter(name):
             def on_call(orig, args, kwargs):
                 mon.events[name] += 1
-                return orig(*args, **kwargs)
+                if mon._depth:
+                    return orig(*args, **kwargs)  # nice() asking for ticks(): one budget for the outer call
+                mon._steps = 0
+                mon._depth = 1
+                try:
+                    return orig(*args, **kwargs)
+                except BudgetExceeded as e:
+                    mon.events["step_budget_exceeded"] += 1
+                    raise TickBudgetExceeded("TimeScale.%s: %s" % (name, e))
+                finally:
+                    mon._depth = 0
 
             return on_call
+
+        def stepper(orig, args, kwargs):
+            mon._steps += 1
+            if mon._depth and mon._steps > mon.step_budget:
+                raise BudgetExceeded("more than %d calendar steps in one call" % mon.step_budget)
+            return orig(*args, **kwargs)
+
+        # the budget is a safety net: units that a changed tree no longer has are simply not counted
+        import labella.d3_time as D
+
+        seen = set()
+        for iv in list(getattr(D, "d3_time", {}).values()):
+            if hasattr(iv, "_step") and id(iv) not in seen:
+                seen.add(id(iv))
+                self.p.wrap(iv, "_step", stepper)
+        for mod in (D, S):
+            if hasattr(mod, "milli2dt"):
+                self.p.wrap(mod, "milli2dt", stepper)
 
         self.p.wrap(cls, "tickMethod", on_tickmethod)
         self.p.wrap(cls, "__call__", on_eval("__call__"))
